@@ -671,13 +671,21 @@ func c18Child(args []string) {
 		os.Exit(2)
 	}
 	var o c18Obs
-	switch scn.Kind {
-	case "startstop":
-		o = c18StartStop(&scn)
-	case "gated":
-		o = c18Gated(&scn)
-	default:
-		o = c18Sessions(&scn)
+	// A port that this process found free may be taken by another process before the Server binds it; that is
+	// the machine, not the Server: the scenario is run again with fresh ports.
+	for attempt := 0; attempt < 6; attempt++ {
+		switch scn.Kind {
+		case "startstop":
+			o = c18StartStop(&scn)
+		case "gated":
+			o = c18Gated(&scn)
+		default:
+			o = c18Sessions(&scn)
+		}
+		if !strings.Contains(o.ResultText, "address already in use") && !strings.Contains(o.Note, "address already in use") {
+			break
+		}
+		o.Note = "port taken by another process: " + o.Note
 	}
 	b, _ := json.Marshal(o)
 	fmt.Printf("C18OBS %s\n", b)
